@@ -5,7 +5,8 @@ from ..common import *
 from .. import common, build, lean, check, script, wiregen
 
 MODULE = "Dbus.Props.C02"
-THEOREMS = []
+THEOREMS = ["marshal_roundtrip", "remarshal_identical", "byteswap_values", "byteswap_involutive", "byteswap_same_length",
+            "copy_differs_only_in_serial"]
 
 
 def emit(rng, t, v, ops):
